@@ -84,3 +84,10 @@ Proof.
   { destruct (guard_version _ _) eqn:E; [|reflexivity]. apply guard_version_spec in E. lia. }
   now rewrite G, Hd.
 Qed.
+
+Theorem missing_data_refused : forall hc reg hvals, 
+  (exists r, msg_from_json hc reg hvals None = inl r).
+Proof.
+  intros. unfold msg_from_json. destruct (from_dict _ _ hvals); [eauto|]. destruct (lookup _ reg); [|eauto].
+  destruct (guard_version _ _); eauto.
+Qed.
